@@ -6,6 +6,7 @@ cd /repo && git diff --quiet || { echo "/repo has local changes"; exit 2; }
 git -C /repo apply "$P" || { echo "PATCH DOES NOT APPLY"; exit 2; }
 trap 'git -C /repo checkout -- . ' EXIT
 cd /verif
+export OHV_EVIDENCE_DIR=/verif/harness/target/evidence-scratch
 for id in "$@"; do
   out=$(./check $id --tier ${TIER:-quick} 2>&1); rc=$?
   echo "== $id exit=$rc"; echo "$out" | grep -E "^(VIOLATION|PASS|HARNESS|sub_check|message|KNOWN)" | cut -c1-400
